@@ -5,7 +5,7 @@ Pure reading of Cython/Utility/*.c|h|cpp and the compiler sources; no compiler o
 import ast, collections, os, re
 
 from ..core import Rule, AnalysisError
-from ..rules import pC39, tabs
+from ..rules import pC39, tabs, num, sC39
 from ..engine import cutil
 
 ID = 'C39'
@@ -332,4 +332,14 @@ def run(ctx):
     for f in r.findings:
         f.rule = 'C39-ALG'
     rules.append(r)
+
+    # ---------------------------------------------------------------- LZSS writer/reader agreement (shared with C12): CYTHON_COMPRESS_STRINGS=90 vs 0
+    for r in num.lzss_rules(ctx):
+        r.id = r.id.replace('C12-', 'C39-LZSS-')
+        for f in r.findings:
+            f.rule = r.id
+        rules.append(r)
+
+    # ---------------------------------------------------------------- LEN: feature-macro variants of a unicode builder agree on the result length
+    rules.append(sC39.rule_len(ctx))
     return rules
